@@ -117,6 +117,10 @@ def build_catalogue():
                 def f(cfg=cfg, tb=tb, msg=msg):
                     return (lambda: (ba(msg),)), (lambda bits: BitCrcCalculator(table_based=tb, configuration=cfg).calculate_checksum(bits))
                 op(f"{cname}_{'table' if tb else 'bitwise'}_m{mi}", "shared")(f)
+    from okdmr.dmrlib.etsi.crc.crc import BitCrcConfiguration as _BCfg
+    _REFL = _BCfg(width_bits=32, polynomial=0x04C11DB7, init_value=0xFFFFFFFF, final_xor_value=0xFFFFFFFF, reverse_input_bytes=True, reverse_output_bytes=True)
+    op("crc32_reflected_custom_configuration_bitwise", "shared")(lambda: ((lambda: (ba(MSG_A[:40]),)), (lambda b: BitCrcCalculator(_REFL, table_based=False).calculate_checksum(b))))
+    op("crc32_reflected_custom_configuration_table", "shared")(lambda: ((lambda: (ba(MSG_B[:56]),)), (lambda b: BitCrcCalculator(_REFL, table_based=True).calculate_checksum(b))))
     op("CRC8.calculate_A", "shared")(lambda: ((lambda: (ba(MSG_A[:28]),)), (lambda b: CRC8.calculate(b))))
     op("CRC8.calculate_B", "shared")(lambda: ((lambda: (ba(MSG_B[:28]),)), (lambda b: CRC8.calculate(b))))
     op("CRC8.check", "shared")(lambda: ((lambda: (ba(MSG_A[:28]),)), (lambda b: CRC8.check(b, 0x55))))
